@@ -91,6 +91,7 @@ type aWorld struct {
 	samples    []string
 	stateSeq   uint64
 	lastReq    []byte
+	lastNote   string // the note of the reference state after the last event (lets patches target it)
 }
 
 func (w *aWorld) fail(prop, oracle, detail string) {
@@ -264,7 +265,8 @@ func (w *aWorld) genPatches(failing bool, create bool) []workload.PatchDesc {
 
 	for i := 0; i < n; i++ {
 		mark := w.nextMark()
-		kinds := []workload.PatchKind{workload.AddKey, workload.AddKey, workload.AddSvc, workload.RemoveKey, workload.RemoveSvc, workload.AddNote, workload.AddAKA, workload.RemoveAKA, workload.ReplaceAll}
+		kinds := []workload.PatchKind{workload.AddKey, workload.AddKey, workload.AddSvc, workload.RemoveKey, workload.RemoveSvc, workload.AddNote, workload.AddAKA, workload.RemoveAKA, workload.ReplaceAll,
+			workload.ReplaceNote, workload.RemoveNote}
 		kind := kinds[T.Draw(len(kinds), "patch.kind")]
 
 		if create && i == 0 {
@@ -289,6 +291,16 @@ func (w *aWorld) genPatches(failing bool, create bool) []workload.PatchDesc {
 			out = append(out, workload.PatchDesc{Kind: kind, IDs: pickIDs(workload.SvcIDs()), Mark: mark})
 		case workload.AddAKA, workload.RemoveAKA:
 			out = append(out, workload.PatchDesc{Kind: kind, IDs: pickIDs([]string{"https://a.example/1", "https://a.example/2", "did:ex:3"}), Mark: mark})
+		case workload.ReplaceNote:
+			// the JSON patch tests the current value first: it applies when the guess is right, fails (atomically) otherwise
+			guess := w.lastNote
+			if T.Draw(4, "patch.note.wrongguess") == 0 || guess == "" {
+				guess = "stale-" + mark
+			}
+
+			out = append(out, workload.PatchDesc{Kind: workload.ReplaceNote, IDs: []string{guess}, Mark: mark})
+		case workload.RemoveNote:
+			out = append(out, workload.PatchDesc{Kind: workload.RemoveNote, Mark: mark})
 		default:
 			out = append(out, workload.PatchDesc{Kind: workload.AddNote, Mark: mark})
 		}
@@ -1410,6 +1422,9 @@ func (w *aWorld) oracles() {
 	}
 
 	st, merr := refmodel.Resolve(w.modelOps())
+	if st != nil {
+		w.lastNote = st.Doc.Note
+	}
 
 	h := fnv.New64a()
 	if st != nil {
